@@ -848,11 +848,16 @@ impl AnnotationStore {
 #[derive(Debug)]
 pub(crate) struct DeserializeAnnotationDataSet<'a> {
     dataset: &'a mut AnnotationDataSet,
+    /// How many @include steps led to the file that is being read (a file may include itself, directly or via others)
+    depth: usize,
 }
+
+/// The maximum number of nested @include steps when reading an AnnotationDataSet
+const MAX_INCLUDE_DEPTH: usize = 8;
 
 impl<'a> DeserializeAnnotationDataSet<'a> {
     pub fn new(dataset: &'a mut AnnotationDataSet) -> Self {
-        Self { dataset }
+        Self { dataset, depth: 0 }
     }
 }
 
@@ -867,6 +872,7 @@ impl<'de> DeserializeSeed<'de> for DeserializeAnnotationDataSet<'_> {
     {
         let visitor = AnnotationDataSetVisitor {
             dataset: &mut self.dataset,
+            depth: self.depth,
         };
         deserializer.deserialize_map(visitor)?;
         Ok(())
@@ -875,6 +881,7 @@ impl<'de> DeserializeSeed<'de> for DeserializeAnnotationDataSet<'_> {
 
 struct AnnotationDataSetVisitor<'a> {
     dataset: &'a mut AnnotationDataSet,
+    depth: usize,
 }
 
 impl<'de> serde::de::Visitor<'de> for AnnotationDataSetVisitor<'_> {
@@ -907,9 +914,20 @@ impl<'de> serde::de::Visitor<'de> for AnnotationDataSetVisitor<'_> {
                 }
                 "@include" => {
                     let filename: String = map.next_value()?;
-                    self.dataset
-                        .merge_json_file(filename.as_str())
+                    if self.depth >= MAX_INCLUDE_DEPTH {
+                        return Err(<A::Error as serde::de::Error>::custom(format!(
+                            "@include of {filename} is nested too deeply (does the file include itself?)"
+                        )));
+                    }
+                    let reader = open_file_reader(filename.as_str(), self.dataset.config())
                         .map_err(|e| -> A::Error { serde::de::Error::custom(e) })?;
+                    let deserializer = &mut serde_json::Deserializer::from_reader(reader);
+                    DeserializeAnnotationDataSet {
+                        dataset: &mut *self.dataset,
+                        depth: self.depth + 1,
+                    }
+                    .deserialize(deserializer)
+                    .map_err(|e| -> A::Error { serde::de::Error::custom(e) })?;
                     if self.dataset.filename.is_none() {
                         self.dataset.filename = Some(filename);
                     }
